@@ -41,9 +41,11 @@ class C18(Prop):
     def configs(self, tier, seed):
         out = []
         i = 0
-        for (d, m) in [(1, 1), (2, 1), (1, 2), (2, 2)]:
+        for (d, m, pp) in [(1, 1, 1), (2, 1, 1), (1, 2, 1), (2, 2, 1), (1, 1, 2), (2, 1, 2), (1, 1, 3)]:
             for name in ('col', 'row', 'row-nb', 'col-row'):
-                if any(s[1] % m or s[2] % m for s in MODELS[name]):
+                if not neox.divisible(MODELS[name], m):
+                    continue
+                if pp > 1 and name not in ('col', 'col-row'):
                     continue
                 for mode in ('memory', 'dir'):
                     for ci in (True, False):
@@ -53,14 +55,14 @@ class C18(Prop):
                         if m > 1 and not (d == 1 and name in ('row', 'col') and mode == 'memory' and ci):
                             # region of the recorded finding (replicated factor restored on one peer only): two witnesses
                             continue
-                        out.append({'harness': 'checkpoint', 'data': d, 'model': m, 'layers': name, 'mode': mode,
+                        out.append({'harness': 'checkpoint', 'data': d, 'model': m, 'pipe': pp, 'layers': name, 'mode': mode,
                                     'compute_inverses': ci, 'before': 1 + i % 2})
         return out
 
     def run(self, cfg, eng):
         import kfac.gpt_neox.preconditioner as GP
-        D, M = cfg['data'], cfg['model']
-        w = D * M
+        D, M, P = cfg['data'], cfg['model'], cfg.get('pipe', 1)
+        w = D * M * P
         specs = MODELS[cfg['layers']]
         full = [neox.unsharded(s) for s in specs]
         nbefore = cfg['before']
@@ -71,19 +73,19 @@ class C18(Prop):
             eng.assume(And(lam > 0, alpha > 0, alpha <= 1, lr >= 0), check=False)
         elif not (lam > 0 and 0 < alpha <= 1 and lr >= 0):
             raise symex.PathAbort('hp')
-        data = {(di, s, li): kfh.sym_batch(eng, f'_{di}_{s}_{li}', fs, 1)
-                for di in range(D) for s in range(nsteps) for li, fs in enumerate(full)}
-        grads = {(s, li): kfh.sym_grads(eng, f'_{s}_{li}', fs) for s in range(nsteps) for li, fs in enumerate(full)}
+        data = {(pi, di, s, li): kfh.sym_batch(eng, f'_{pi}_{di}_{s}_{li}', fs, 1)
+                for pi in range(P) for di in range(D) for s in range(nsteps) for li, fs in enumerate(full)}
+        grads = {(pi, s, li): kfh.sym_grads(eng, f'_{pi}_{s}_{li}', fs) for pi in range(P) for s in range(nsteps) for li, fs in enumerate(full)}
         ckdir = 'ckpt_dir' if cfg['mode'] == 'dir' else None
         if not H.SHIM and ckdir:
             import tempfile
             ckdir = tempfile.mkdtemp(prefix='vk_c18_')
 
         def rank(r):
-            _, di, mi = neox.coords(r, D, M)
+            pi, di, mi = neox.coords(r, D, M)
 
             def make():
-                model, mods, topo = neox.build_rank(specs, r, D, M, 1)
+                model, mods, topo = neox.build_rank(specs, r, D, M, P)
                 import torch.distributed as dist
                 dp = mp = None
                 # process groups are created once per process by DeepSpeed; re-use them for the fresh object
@@ -103,10 +105,10 @@ class C18(Prop):
 
             def train(s):
                 for li, (spec, mod) in enumerate(zip(specs, mods)):
-                    x, gy = neox.local_batch(spec, *data[(di, s, li)], mi, M)
+                    x, gy = neox.local_batch(spec, *data[(pi, di, s, li)], mi, M)
                     kfh.feed(mod, x, gy)
                 for li, (spec, mod) in enumerate(zip(specs, mods)):
-                    dw, db = neox.local_grads(spec, *grads[(s, li)], mi, M)
+                    dw, db = neox.local_grads(spec, *grads[(pi, s, li)], mi, M)
                     mod.weight.grad = H.from_list(dw, None if H.SHIM else mod.weight.dtype)
                     if spec[3]:
                         mod.bias.grad = H.from_list(db, None if H.SHIM else mod.bias.dtype)
@@ -123,7 +125,10 @@ class C18(Prop):
             out['saved_layers'] = None if 'layers' not in sd else {
                 n: (H.vals(v['A']), H.vals(v['G'])) for n, v in sd['layers'].items()}
             out['saved_steps'] = sd['steps']
-            pre, mods = make()   # construction is collective: every rank has finished saving by now
+            pre, mods = make()
+            if w > 1:
+                import torch.distributed as dist_
+                dist_.barrier()   # harness-level sync: every rank has finished saving before the files are listed
             if ckdir is not None:
                 files = {}
                 if H.SHIM:
@@ -168,61 +173,69 @@ class C18(Prop):
         if wr.violations or wr.errors or len(wr.results) < w or any(wr.results[r]['load_error'] for r in wr.results):
             return
         eng.witness('checkpoint round trip executed')
-        ref = kfh.KfacRef(full, 'eigen', prediv=False)
-        names = [str(i) for i in range(len(specs))]
+        L = len(specs)
+        names = [neox.layer_name(pi, li, L) for pi in range(P) for li in range(L)]
+        refs = [kfh.KfacRef(full, 'eigen', prediv=False) for _ in range(P)]
         for s in range(nsteps):
-            for li, fs in enumerate(full):
-                ref.update_factors(li, [data[(di, s, li)][0] for di in range(D)], [data[(di, s, li)][1] for di in range(D)], alpha)
-                ref.refresh(li, lam)
+            for pi in range(P):
+                ref = refs[pi]
+                for li, fs in enumerate(full):
+                    ref.update_factors(li, [data[(pi, di, s, li)][0] for di in range(D)], [data[(pi, di, s, li)][1] for di in range(D)], alpha)
+                    ref.refresh(li, lam)
             if s == nbefore - 1:
-                saved_ref = [(ref.A[li], ref.G[li]) for li in range(len(full))]
+                saved_ref = {neox.layer_name(pi, li, L): (refs[pi].A[li], refs[pi].G[li]) for pi in range(P) for li in range(L)}
                 for r in range(w):
                     o = wr.results[r]
+                    rp = neox.coords(r, D, M)[0]
                     eng.oblige('saved-step-count', o['saved_steps'] == nbefore and o['loaded_steps'] == nbefore)
                     if cfg['mode'] == 'memory':
                         eng.oblige('state-on-every-rank-lists-every-layer', o['saved_layers'] is not None
-                                   and sorted(o['saved_layers']) == sorted(names), info={'rank': r, 'layers': str(o['saved_layers'] and sorted(o['saved_layers']))})
+                                   and sorted(o['saved_layers']) == sorted(names),
+                                   info={'rank': r, 'layers': str(o['saved_layers'] and sorted(o['saved_layers'])), 'want': str(sorted(names))})
                         if o['saved_layers'] is None or sorted(o['saved_layers']) != sorted(names):
                             return
-                        for li, n in enumerate(names):
+                        for n in names:
                             a, g = o['saved_layers'][n]
                             eng.oblige_all_eq('saved-factors-are-those-held-by-the-inverse-worker (= unsharded reference)',
-                                              O.pairs(a, saved_ref[li][0]) + O.pairs(g, saved_ref[li][1]), info={'rank': r, 'layer': n})
+                                              O.pairs(a, saved_ref[n][0]) + O.pairs(g, saved_ref[n][1]), info={'rank': r, 'layer': n})
                     else:
                         eng.oblige('directory-mode-state-has-no-layers-and-one-file-per-layer',
                                    o['saved_layers'] is None and sorted(o['files']) == sorted(names), info={'files': str(sorted(o['files']))})
                         if sorted(o['files']) != sorted(names):
                             return
-                        for li, n in enumerate(names):
+                        for n in names:
                             a, g = o['files'][n]
-                            eng.oblige_all_eq('per-layer-file-holds-the-layer-factors', O.pairs(a, saved_ref[li][0]) + O.pairs(g, saved_ref[li][1]))
-                    for li in range(len(specs)):
+                            eng.oblige_all_eq('per-layer-file-holds-the-layer-factors', O.pairs(a, saved_ref[n][0]) + O.pairs(g, saved_ref[n][1]))
+                    for li in range(L):
                         h = o['held'][li]
+                        n = neox.layer_name(rp, li, L)
                         if h['primary']:
                             eng.oblige('factors-restored-on-the-gathering-rank', h['A'] is not None and h['G'] is not None, info={'rank': r})
                             if h['A'] is not None and h['G'] is not None:
                                 eng.oblige_all_eq('restored-factors-equal-saved-factors',
-                                                  O.pairs(h['A'], saved_ref[li][0]) + O.pairs(h['G'], saved_ref[li][1]))
+                                                  O.pairs(h['A'], saved_ref[n][0]) + O.pairs(h['G'], saved_ref[n][1]))
                             eng.oblige('second-order-data-recomputed-iff-requested', h['has_second_order'] == cfg['compute_inverses'],
                                        info={'rank': r, 'has': h['has_second_order']})
-            Ds = [kfh.combined(fs, *grads[(s, li)]) for li, fs in enumerate(full)]
-            Vs = [ref.precondition(li, Ds[li], lam) for li in range(len(full))]
-            for di in range(D):
-                for mi in range(M):
-                    r = neox.rank_of(0, di, mi, D, M)
-                    got = wr.results[r]['grads'][s]
-                    pairs = []
-                    for li, spec in enumerate(specs):
-                        V = Vs[li]
-                        nb = 1 if spec[3] else 0
-                        if spec[0] == 'col':
-                            want = neox.shard_rows(V, mi, M)
-                        else:
-                            wcols = neox.shard_cols([row[:len(row) - nb] for row in V], mi, M)
-                            want = [wr_ + ([row[-1]] if nb else []) for wr_, row in zip(wcols, V)]
-                        pairs += O.pairs(got[li], want)
-                    eng.oblige_all_eq('resumed-run-equals-the-uninterrupted-reference' if s >= nbefore else
-                                      'run-before-the-checkpoint-equals-the-reference', pairs, info={'rank': r, 'step': s, 'model': M})
+            for pi in range(P):
+                ref = refs[pi]
+                Ds = [kfh.combined(fs, *grads[(pi, s, li)]) for li, fs in enumerate(full)]
+                Vs = [ref.precondition(li, Ds[li], lam) for li in range(len(full))]
+                for di in range(D):
+                    for mi in range(M):
+                        r = neox.rank_of(pi, di, mi, D, M)
+                        got = wr.results[r]['grads'][s]
+                        pairs = []
+                        for li, spec in enumerate(specs):
+                            V = Vs[li]
+                            nb = 1 if spec[3] else 0
+                            if spec[0] == 'col':
+                                want = neox.shard_rows(V, mi, M)
+                            else:
+                                wcols = neox.shard_cols([row[:len(row) - nb] for row in V], mi, M)
+                                want = [wr_ + ([row[-1]] if nb else []) for wr_, row in zip(wcols, V)]
+                            pairs += O.pairs(got[li], want)
+                        eng.oblige_all_eq('resumed-run-equals-the-uninterrupted-reference' if s >= nbefore else
+                                          'run-before-the-checkpoint-equals-the-reference', pairs, info={'rank': r, 'step': s, 'model': M})
 
 
 PROP = C18()
